@@ -292,7 +292,9 @@ def _prescribe(simu, nodes, X, values, unknowns, form, funs=None):
         simu.add_dirichlet(nodes, list(funs), list(unknowns))
         return 1
     if form == "array":
-        simu.add_dirichlet(nodes, [values[nodes, d].copy() for d in range(len(unknowns))], list(unknowns))
+        # ... nor on the unknowns being named in their canonical order (the docstring's own example names ['y', 'x'])
+        order = list(range(len(unknowns)))[1:] + [0]
+        simu.add_dirichlet(nodes, [values[nodes, d].copy() for d in order], [unknowns[d] for d in order])
         return 1
     if form == "constant":
         for n in nodes:
